@@ -272,7 +272,7 @@ impl Check for C14 {
     fn runs(&self, tier: Tier) -> u64 {
         match tier {
             Tier::Quick => QUICK_CLAMP + 150_000,
-            Tier::Thorough => FULL_CLAMP + 5_000_000,
+            Tier::Thorough => FULL_CLAMP + 60_000_000,
         }
     }
     fn generate(&self, rng: &mut Rng, tier: Tier, idx: u64) -> Scn {
